@@ -32,6 +32,8 @@ type fsWorld struct {
 	ip      *Interp
 	now     time.Time
 	failing bool
+	syncErr bool // Sync reports an error
+	reads   int  // clock readings in the current operation
 	events  []fsEvent
 	nOpen   int
 	open    map[string]bool // handle → still open
@@ -56,7 +58,13 @@ func (c *Ctx) newFsWorld(ro *Roles) (*fsWorld, *entryWorld, string) {
 		ip.Globals[g] = o
 		ip.PoolNew[o] = nf
 	}
-	ip.Clock = func() time.Time { return w.now }
+	// every reading of the clock inside one operation is one second later than the previous one: code that dates a file
+	// by a second reading shows up
+	ip.Clock = func() time.Time {
+		t := w.now.Add(time.Duration(w.reads) * time.Second)
+		w.reads++
+		return t
+	}
 	ip.OnGo = func(ip *Interp, fn *ssa.Function, args []AV) {
 		n := "?"
 		if fn != nil {
@@ -133,6 +141,9 @@ func (c *Ctx) newFsWorld(ro *Roles) (*fsWorld, *entryWorld, string) {
 				return TupleV{kInt(int64(len(avStr(args[1])))), NilV{}}, true
 			case "Sync":
 				w.events = append(w.events, fsEvent{op: "sync", file: h})
+				if w.syncErr {
+					return ip.errVal("sync: input/output error"), true
+				}
 				return NilV{}, true
 			case "Close":
 				w.events = append(w.events, fsEvent{op: "close", file: h})
@@ -261,22 +272,37 @@ func (c *Ctx) checkFileAppenderSemantics(r *Report, ro *Roles, rule string) map[
 			failing bool
 			op      string // start, write, stop
 			data    string
+			syncErr bool
 		}
-		steps := []step{{"Start", t0, false, "start", ""}, {"a write in the starting interval", t0.Add(1 * time.Second), false, "write", "w1\n"}}
+		steps := []step{{what: "Start", at: t0, op: "start"}, {what: "a write in the starting interval", at: t0.Add(1 * time.Second), op: "write", data: "w1\n"}}
 		if rotating {
 			b1 := t0.Truncate(10 * time.Minute).Add(10 * time.Minute)
 			steps = append(steps,
-				step{"a second write in the starting interval", t0.Add(90 * time.Second), false, "write", "w2\n"},
-				step{"the first write after an interval boundary", b1.Add(2 * time.Second), false, "write", "w3\n"},
-				step{"a write later in that interval", b1.Add(5 * time.Minute), false, "write", "w4\n"},
-				step{"the first write after the next boundary", b1.Add(10*time.Minute + 1*time.Second), false, "write", "w5\n"},
-				step{"the first write after a boundary skipping an idle interval", b1.Add(30*time.Minute + 7*time.Second), false, "write", "w6\n"},
-				step{"the first write after a boundary at which the next file cannot be created", b1.Add(40*time.Minute + 3*time.Second), true, "write", "w7\n"},
-				step{"a later write in the interval of the failed rotation", b1.Add(45 * time.Minute), true, "write", "w8\n"},
-				step{"the first write after the next boundary, the directory being back", b1.Add(50*time.Minute + 4*time.Second), false, "write", "w9\n"},
+				step{what: "a second write in the starting interval", at: t0.Add(90 * time.Second), failing: false, op: "write", data: "w2\n"},
+				step{what: "the first write after an interval boundary", at: b1.Add(2 * time.Second), failing: false, op: "write", data: "w3\n"},
+				step{what: "a write later in that interval", at: b1.Add(5 * time.Minute), failing: false, op: "write", data: "w4\n"},
+				step{what: "the first write after the next boundary", at: b1.Add(10*time.Minute + 1*time.Second), failing: false, op: "write", data: "w5\n"},
+				step{what: "the first write after a boundary skipping an idle interval", at: b1.Add(30*time.Minute + 7*time.Second), failing: false, op: "write", data: "w6\n"},
+				step{what: "the first write after a boundary at which the next file cannot be created", at: b1.Add(40*time.Minute + 3*time.Second), failing: true, op: "write", data: "w7\n"},
+				step{what: "a later write in the interval of the failed rotation", at: b1.Add(45 * time.Minute), failing: true, op: "write", data: "w8\n"},
+				step{what: "the first write after the next boundary, the directory being back", at: b1.Add(50*time.Minute + 4*time.Second), op: "write", data: "w9\n"},
+				step{what: "the first write after a boundary with the directory gone again", at: b1.Add(60*time.Minute + 2*time.Second), failing: true, op: "write", data: "w10\n"},
+				step{what: "the first write after the second consecutive boundary without a directory", at: b1.Add(70*time.Minute + 2*time.Second), failing: true, op: "write", data: "w11\n"},
+				step{what: "a later write in that interval", at: b1.Add(75 * time.Minute), failing: true, op: "write", data: "w12\n"},
+				step{what: "the first write after the third consecutive boundary without a directory", at: b1.Add(80*time.Minute + 2*time.Second), failing: true, op: "write", data: "w13\n"},
+				step{what: "the first write after the next boundary, the directory being back again", at: b1.Add(90*time.Minute + 2*time.Second), op: "write", data: "w14\n"},
+				step{what: "the first write after one more boundary", at: b1.Add(100*time.Minute + 2*time.Second), op: "write", data: "w15\n"},
 			)
 		}
-		steps = append(steps, step{"Stop", t0.Add(2 * time.Hour), false, "stop", ""}, step{"a second Stop", t0.Add(2*time.Hour + time.Second), false, "stop", ""})
+		steps = append(steps, step{what: "Stop", at: t0.Add(3 * time.Hour), op: "stop"}, step{what: "a second Stop", at: t0.Add(3*time.Hour + time.Second), op: "stop"})
+		// the same value is started again, used, and stopped while Sync reports errors
+		t1 := t0.Add(4 * time.Hour)
+		steps = append(steps, step{what: "Start after Stop on the same appender", at: t1, op: "start"},
+			step{what: "a write after the restart", at: t1.Add(3 * time.Second), op: "write", data: "r1\n"})
+		if rotating {
+			steps = append(steps, step{what: "the first write after a boundary following the restart", at: t1.Truncate(10 * time.Minute).Add(10*time.Minute + time.Second), op: "write", data: "r2\n"})
+		}
+		steps = append(steps, step{what: "Stop while Sync reports an error", at: t1.Add(time.Hour), op: "stop", syncErr: true})
 		var oodWhy string
 		{
 			// an appender whose Start never ran (or failed): a log call and Stop must not panic
@@ -303,8 +329,9 @@ func (c *Ctx) checkFileAppenderSemantics(r *Report, ro *Roles, rule string) map[
 		}
 		curPath := "" // path of the file writes are expected to go to
 		var wantOpenAt, lastAttempt time.Time
+		prevPath := ""
 		for _, stp := range steps {
-			w.now, w.failing = stp.at, stp.failing
+			w.now, w.failing, w.reads, w.syncErr = stp.at, stp.failing, 0, stp.syncErr
 			before := len(w.events)
 			var out string
 			var err error
@@ -356,7 +383,7 @@ func (c *Ctx) checkFileAppenderSemantics(r *Report, ro *Roles, rule string) map[
 				if len(opens) != 1 || opens[0].path != want {
 					fail("%s at %s opens %v, want exactly %s", stp.what, stp.at.Format("15:04:05"), pathsOf(opens), want)
 				} else {
-					curPath = opens[0].path
+					curPath, prevPath = opens[0].path, ""
 					wantOpenAt, lastAttempt = stp.at, stp.at.Truncate(10*time.Minute)
 				}
 			case "write":
@@ -381,6 +408,7 @@ func (c *Ctx) checkFileAppenderSemantics(r *Report, ro *Roles, rule string) map[
 						if len(opens) != 1 || opens[0].path != nameOf(stp.at) {
 							fail("%s (at %s): opens %v, want the new file %s", stp.what, stp.at.Format("15:04:05"), pathsOf(opens), nameOf(stp.at))
 						} else {
+							prevPath = curPath
 							curPath, wantOpenAt = opens[0].path, stp.at
 						}
 					case newInterval && stp.failing:
@@ -410,6 +438,17 @@ func (c *Ctx) checkFileAppenderSemantics(r *Report, ro *Roles, rule string) map[
 						left = append(left, w.paths[h])
 					}
 					fail("%s leaves %d descriptor(s) open: %v", stp.what, len(w.open), left)
+				}
+			}
+			if rotating && stp.op == "write" && len(opens) == 1 && prevPath != "" {
+				stillOpen := false
+				for h := range w.open {
+					if w.paths[h] == prevPath {
+						stillOpen = true
+					}
+				}
+				if !stillOpen {
+					fail("%s: the file that was current until now (%s) is closed at the moment of the rotation; a writer that loaded it just before the switch writes to a closed descriptor (it must stay open until the following rotation)", stp.what, prevPath)
 				}
 			}
 			if len(w.open) > 2 {
